@@ -231,8 +231,8 @@ def run(ctx):
     ctx.rule = ("DecCtl_mc: TLC explores every sequence of calls (decode of valid packets of each mode x duration x channels x code, "
                 "invalid packets, loss, FEC, reset, gain) to the fixpoint of the abstract state graph and checks the contract theorems on "
                 "every transition. hx_dec replays TLC-generated call sequences (transition tour + all short sequences) on all "
-                "Fs x channels x entry points with packets built from frames of the tree's own encoder, and runs seeded fuzz executions in four "
-                "packet families on single-stream, multistream and projection decoders; every recorded call is judged by DecTrace "
+                "Fs x channels x entry points with packets built from frames of the tree's own encoder, and runs seeded fuzz executions in five "
+                "packet families (the fifth: CELT/SILK frame headers written at their extremes with the library's own range encoder) on single-stream, multistream and projection decoders; every recorded call is judged by DecTrace "
                 "(success iff contract, exact count, documented error, 0<n<=frame_size, finite samples, canaries, high-water mark, "
                 "last-packet-duration). non-trivial = distinct decode calls (header bytes, len, frame_size, fec, entry point) that returned "
                 "samples, BUFFER_TOO_SMALL or INVALID_PACKET, plus distinct inspected packets")
@@ -282,7 +282,7 @@ def run(ctx):
     exe = vf.build_hx(var, "dec.c")
 
     jobs = []
-    for fam in range(4):
+    for fam in range(5):
         for first in range(0, T["fuzz_execs"], T["fuzz_chunk"]):
             jobs.append(Job("fuzz%d_%d" % (fam, first), ["fuzz", seed, fam, first, min(T["fuzz_chunk"], T["fuzz_execs"] - first)],
                             header=dict(mode="fuzz", seed=seed, family=fam)))
@@ -407,7 +407,8 @@ META = dict(
                 "PLC/FEC, clamped to 120 ms for multistream); failures return BAD_ARG/BUFFER_TOO_SMALL/INVALID_PACKET and leave the state "
                 "unchanged; last-packet-duration tracks; concealment pieces always add up to the request. Every call recorded from the real "
                 "single-stream (16-bit/24-bit/float), multistream and projection decoders and the packet-inspection functions - replayed "
-                "TLC-generated sequences and four fuzz families with random call interleavings - is judged by TLC against that contract "
+                "TLC-generated sequences and five fuzz families (random bytes, valid header + random payload, damaged corpus packets, "
+                "multistream/projection, encoder-built extreme coarse-energy / gain symbols) with random call interleavings - is judged by TLC against that contract "
                 "(return value exact, 0<n<=frame_size, finite samples, nothing modified beyond frame_size x channels, canaries, "
                 "LAST_PACKET_DURATION)."),
     level_note=("Memory safety ('reads only the packet, writes only inside the buffer') and termination are observed with ASan/UBSan/"
